@@ -822,7 +822,7 @@ pub fn prepare(st: &Selected, hdr: &Path, thorough: bool, skipped_unspecified: &
             if ext.is_some() {
                 break;
             }
-            let vg = ValueGen { m, budget: if thorough { Budget::thorough() } else { Budget { max_values: 60, pairs: true, nested_alts: 3, max_array_len: 20 } } };
+            let vg = ValueGen { m, budget: if thorough { Budget { max_values: 400, pairs: true, nested_alts: 4, max_array_len: 300 } } else { Budget { max_values: 60, pairs: true, nested_alts: 3, max_array_len: 20 } } };
             for ty in &types {
                 let decl = m.decl(ty);
                 let vals: Vec<Val> = vg.values(ty).ok.into_iter().filter(|v| m.encode(ty, v).is_ok()).collect();
@@ -1269,7 +1269,7 @@ pub fn check_on(tier: Tier, only: Option<Vec<Selected>>) -> i32 {
     std::fs::create_dir_all(&hdr).expect("mkdir");
     let thorough = tier == Tier::Thorough;
     let limit: usize = std::env::var("PDLMC_LIMIT").ok().and_then(|s| s.parse().ok()).unwrap_or(usize::MAX);
-    let stride: usize = std::env::var("PDLMC_CXX_STRIDE").ok().and_then(|s| s.parse().ok()).unwrap_or(if thorough { 32 } else { 4 });
+    let stride: usize = std::env::var("PDLMC_CXX_STRIDE").ok().and_then(|s| s.parse().ok()).unwrap_or(if thorough { 64 } else { 4 });
     let group: usize = std::env::var("PDLMC_CXX_GROUP").ok().and_then(|s| s.parse().ok()).unwrap_or(12);
     // the C++ tier is the most expensive per state (two sanitizer builds): quick compiles every
     // `stride`-th selected state (fixed stride through the BFS order, reported)
